@@ -105,7 +105,9 @@ func VerifC03FailureDump(c *Cache) map[uint64]string {
 	return out
 }
 
-func VerifC03FailureLookup(c *Cache, k FailureQuestionKey) (FailureHit, bool) { return c.failure.Lookup(k) }
+func VerifC03FailureLookup(c *Cache, k FailureQuestionKey) (FailureHit, bool) {
+	return c.failure.Lookup(k)
+}
 
 func VerifC03FailureLookupWire(c *Cache, name []byte, qtype, qclass uint16, cd bool) (FailureHit, bool) {
 	return c.failure.LookupWire(name, qtype, qclass, cd)
